@@ -23,28 +23,31 @@ Rec == ndJsonDeserialize(IOEnv.TRACE)
 VARIABLE l
 tvars == <<vars, l>>
 
-TInit == /\ l = 1 /\ sig = Sig(None, <<>>) /\ decls = <<>> /\ args = <<>> /\ phase = "done"
+\* `phase` tracks the protocol of a history: reset ("fresh") -> print ("printed") -> lex ("ready") ->
+\* (call ("called") -> callinfo ("ready"))*, so that a missing or repeated record is rejected.
+TInit == /\ l = 1 /\ sig = Sig(None, <<>>) /\ decls = <<>> /\ args = <<>> /\ phase = "ready"
          /\ i = 1 /\ resolved = <<>> /\ errors = <<>> /\ outcome = None
 IsEvent(e) == l <= Len(Rec) /\ Rec[l].ev = e /\ l' = l + 1
-Keep == UNCHANGED <<sig, decls, phase, i, resolved, errors, outcome>>
+Keep == UNCHANGED <<sig, decls, i, resolved, errors, outcome>>
+Stage(from, to) == phase = from /\ phase' = to
 
-TReset == /\ IsEvent("reset")
+TReset == /\ IsEvent("reset") /\ Stage("ready", "fresh")
           /\ sig' = Rec[l].sig /\ decls' = Rec[l].decls /\ args' = <<>>
-          /\ UNCHANGED <<phase, i, resolved, errors, outcome>>
+          /\ UNCHANGED <<i, resolved, errors, outcome>>
 
 \* C31, first sentence, on the recorded real round trip
-TPrint == /\ IsEvent("print") /\ ValidSig(sig) /\ Rec[l].reparsed = Some(sig) /\ Keep /\ UNCHANGED args
+TPrint == /\ IsEvent("print") /\ Stage("fresh", "printed") /\ ValidSig(sig) /\ Rec[l].reparsed = Some(sig) /\ Keep /\ UNCHANGED args
 
-TLex == /\ IsEvent("lex")
+TLex == /\ IsEvent("lex") /\ Stage("printed", "ready")
         /\ (Strict => (Rec[l].tokens = PrintSig(sig) /\ ParseSig(Rec[l].tokens) = Ok(sig)))
         /\ Keep /\ UNCHANGED args
 
 \* C31, second sentence, on a recorded real call
-TCall == /\ IsEvent("call")
+TCall == /\ IsEvent("call") /\ Stage("ready", "called")
          /\ (Rec[l].judged => (Rec[l].ok <=> Resolves(Rec[l].args, sig, decls)))
          /\ args' = Rec[l].args /\ Keep
 
-TCallInfo == /\ IsEvent("callinfo")
+TCallInfo == /\ IsEvent("callinfo") /\ Stage("called", "ready")
              /\ (Strict => Rec[l].outcome = ResolveAll(args, sig, decls))
              /\ Keep /\ UNCHANGED args
 
